@@ -354,6 +354,9 @@ impl G {
   fn register_generic_inst(&mut self, ty: &Ty) {
     let Ty::C(n, a) = ty else { return };
     let Some(c) = self.class(n) else { return };
+    if c.module == STD {
+      return;
+    }
     let (module, arg) = (c.module, a[0].clone());
     let mk = |name: &str, params: Vec<(String, Ty, R)>, ret: Ty, rr: R, cost: u64| Sig {
       cls: n.clone(),
